@@ -80,7 +80,21 @@ impl Cfg for CfgImpl { type A = u32; }
 #[scale_info(skip_type_params(C))]
 struct Assoc<C: Cfg> { a: C::A, b: Vec<C::A> }
 
+// a large generated corpus of built-in type expressions (written by checks/c15.py from the TLC-enumerated
+// corpus of specs/MC_TypeExpr.tla); absent -> empty
+#[cfg(fp_corpus)]
+include!(concat!(env!("FP_CORPUS_DIR"), "/gen_corpus.rs"));
+#[cfg(not(fp_corpus))]
+fn gen_corpus() -> Vec<MetaType> {
+    vec![]
+}
+
 fn corpus() -> Vec<MetaType> {
+    let mut v = base_corpus();
+    v.extend(gen_corpus());
+    v
+}
+fn base_corpus() -> Vec<MetaType> {
     vec![
         meta_type::<S<E>>(), meta_type::<S<u8>>(), meta_type::<N>(), meta_type::<core::marker::PhantomData<u8>>(),
         meta_type::<inner::R<'static, u16, String>>(), meta_type::<inner::Unit>(), meta_type::<inner::Z>(), meta_type::<Assoc<CfgImpl>>(),
